@@ -76,9 +76,27 @@ def sym_irfft(X, n=None, axis=-1, norm=None, **kw):
     return out
 
 
-def make_fft_module():
+def opaque_rfft(x, n=None, axis=-1, norm=None, **kw):
+    """Opaque spectrum: bin k of the n-point transform of an m-sample input is (re_{n,m,k}(x), im_{n,m,k}(x))
+    with re/im uninterpreted functions of the whole input vector - any n; used where only structure matters."""
+    x = np.asarray(x)
+    if x.dtype != object:
+        return np.fft.rfft(x, n=n, axis=axis, norm=norm)
+    m = len(x)
+    n = m if n is None else int(n)
+    args = [z3.simplify(Sym.lift(v)) for v in x[:min(m, n)]]
+    mm = len(args)
+    out = np.empty(n // 2 + 1, dtype=object)
+    for k in range(n // 2 + 1):
+        fr = z3.Function(f"dft_re_{n}_{mm}_{k}", *([z3.RealSort()] * (mm + 1)))
+        fi = z3.Function(f"dft_im_{n}_{mm}_{k}", *([z3.RealSort()] * (mm + 1)))
+        out[k] = CSym(Sym(fr(*args)), Sym(fi(*args)))
+    return out
+
+
+def make_fft_module(opaque=False):
     m = types.ModuleType("numpy.fft")
-    m.rfft = sym_rfft
+    m.rfft = opaque_rfft if opaque else sym_rfft
     m.irfft = sym_irfft
     m.rfftfreq = np.fft.rfftfreq
     m.fft = None
